@@ -58,6 +58,11 @@ def cases(ctx):
         hdr = gen.fieldnames(nf)
         n = rng.choice([0, 1, 2, 3, 4, 5, 6, 7])
         rows = [[rng.choice(pool) for _ in range(nf)] for _ in range(n)]
+        if rows and rng.random() < 0.12:
+            # cells that repeat their field's name (a header line repeated among the data): rows like any other
+            for _ in range(rng.choice([1, 1, 2])):
+                ri = rng.randrange(len(rows))
+                rows[ri] = [f if rng.random() < 0.8 else c for f, c in zip(hdr, rows[ri])]
         r = rng.random()
         if r < 0.2:
             key = None
